@@ -52,6 +52,8 @@ def make_scenarios(ctx, count):
         if style == "icon":
             # a session in which the icon (and other large properties) were fetched; the platform's icon is replaced
             # afterwards, at the latest right before the Reset
+            if rng.random() < 0.4:
+                glob = dict(glob, icon_size=0, icon=None, _icon_cache=None)      # starts out without (or with an empty) icon
             m0 = rng.randrange(3)
             h = [G.f_discover(rng, net, m=m0, tos=rng.choice([0, 0, 1]))]
             for _ in range(rng.randint(1, 4)):
@@ -88,6 +90,8 @@ def make_scenarios(ctx, count):
         s.iface(1, **kw2)
         s.glob(**G.global_kw(glob))
         s.add("OPT sleep=1")
+        if style == "icon" and rng.random() < 0.4:
+            s.add("OPT emptyicon=1")       # an icon file that exists but is empty is handed out as a success with size 0
         switch_at = rng.randrange(len(h) + 1) if rng.random() < 0.5 else None
         if style == "icon":
             switch_at = len(h)                   # after everything was fetched
